@@ -1,4 +1,4 @@
-import Txtpp.Lemmas.ConcreteCoord
+import Txtpp.Lemmas.ConcreteTrace
 import Txtpp.Lemmas.Term
 import Txtpp.Lemmas.SeenClosure
 /-!
@@ -44,14 +44,15 @@ theorem cycles_terminate_closed (w : World) (inputs U : List File) (hin : ∀ i 
     (hcl : ∀ f ∈ U, ∀ d ∈ w.deps f, d ∈ U) (n : Nat) (s : St) (h : ReachN w inputs n s) : n ≤ 2 * U.length :=
   terminates_closed w inputs U hin hcl n s h
 
-/-- **concrete run: a circular-dependency verdict is always justified.** If `Txtpp::run` (real passes over
-the model file system) ends with `circular`, the dependency lists reported by the first passes of this
-very run - tabulated by `w` - contain a cycle that a still-waiting file reaches. -/
-theorem concrete_circular_verdict_has_a_cycle (cfg : Txt.Cfg) (fs : Txt.FS) (inputs : List (List Char))
+/-- **concrete run: a circular-dependency verdict is always justified.** `runProjectT` is `Txtpp::run` over
+the model file system with its trace (the deliveries that really happened). If the verdict is `circular`,
+nothing is in flight, some file is still waiting, and in the world that tabulates exactly the deliveries of
+this trace - the dependency lists the first passes of this very run reported - it reaches a cycle. -/
+theorem concrete_circular_verdict_has_a_cycle (cfg : Txt.Cfg) (fs : Txt.FS) (inputs : List (List Char)) (idx : List File)
+    (s : Txt.PSt) (hist : List (Task × Res)) (ht : Txt.runProjectT cfg fs inputs = some (idx, s, hist))
     (h : (Txt.runProject cfg fs inputs).1 = .circular) :
-    ∃ (idx : List File) (s : St) (hist : List (Task × Res)) (w : World),
-      FReach idx s hist ∧ (∀ t r, (t, r) ∈ hist → w.result t = r) ∧ s.pool = [] ∧
-      ∃ f, (∃ d, f ∈ s.dm.inE d) ∧ ReachesCycle w.deps f :=
-  Txt.runProject_circular_has_cycle cfg fs inputs h
+    s.st.pool = [] ∧ ∃ w : World, (∀ t r, (t, r) ∈ hist → w.result t = r) ∧
+      ∃ f, (∃ d, f ∈ s.st.dm.inE d) ∧ ReachesCycle w.deps f :=
+  Txt.trace_circular_has_cycle cfg fs inputs idx s hist ht h
 
 end C05
